@@ -64,7 +64,9 @@ def valueDom (refs : List (Str × Str)) (form : Option Str) (text : Str) : Chan.
 written (padded media), inner `none` = not stated.  Same case split as `Itext.valueForms`. -/
 def domEntry (refs : List (Str × Str)) (st : Bool) (p : Str) (fb : Str × Str) :
     Option (Option Str × Option (Chan.Outcome Node)) :=
-  let txt (form : Option Str) : Option (Chan.Outcome Node) := if st then some (valueDom refs form fb.2) else none
+  -- without any `${` in the text `_var_repl_function` is never called: the context does not matter
+  let txt (form : Option Str) : Option (Chan.Outcome Node) :=
+    if st || !isInfix "${".toList fb.2 then some (valueDom refs form fb.2) else none
   let media (form v : Str) : Option (Chan.Outcome Node) :=
     if plainText fb.2 then some (.ok (.elem valueTag [("form".toList, form)] [.text false v])) else none
   if labelType p == "hint".toList then
